@@ -171,7 +171,7 @@ def r1(R, tus):
             ok = True
     R.check(ok, "C12.R1", BL, mg.line, "merge", "merged-away row zeroed over all NPROPERTY fields", "the merged-away peak keeps its sums and would be output again")
     # blobproperties seeds
-    bp = cfront.find_func(tus, "blobproperties", CP)
+    bp = cfront.inlined_func(tus, "blobproperties", CP, keep=("add_pixel", "compute_moments", "merge"))   # an 'init one row' helper reads in place
     res = bp.params[-1].name
     seeds = {}
     bpdefs = cfront.scalar_defs(bp)  # row = &res[i * NPROPERTY]; row[F] = ..  reads as res[i * NPROPERTY + F] = ..
@@ -435,7 +435,7 @@ def r3(R):
 def r4(R, tus):
     R.rule("C12.R4", "bloboverlaps: exactly three merge() call sites (res2<-res1 across frames, res1<-res1, res2<-res2), each under its own "
                      "disjoint case test; surviving rows are moved by a full-row copy-then-zero; relabelling follows; link table sized n1+n2+3")
-    f = cfront.find_func(tus, "bloboverlaps", CP)
+    f = cfront.inlined_func(tus, "bloboverlaps", CP, keep=("merge", "dset_initialise", "dset_new", "dset_makeunion", "dset_find", "dset_compress", "dset_link"))
     pn = [p.name for p in f.params]
     b1, n1, res1, b2, n2, res2 = pn[0], pn[1], pn[2], pn[3], pn[4], pn[5]
     calls = [(st, x) for st, x in cfront.all_exprs(f.body) if x.k == "call" and x.name == "merge"]
@@ -479,7 +479,30 @@ def r4(R, tus):
     R.check(len(need) == 1 and estr(need[0].a[1]) == "((%s + %s) + 3)" % (n1, n2), "C12.R4", CP, f.line, "bloboverlaps", "link table length n1 + n2 + 3", "disjoint-set table size changed: %s" % [estr(x.a[1]) for x in need])
     # relabel loop writes b2 through T and comes after the compaction
     rel = [x for st, x in cfront.all_exprs(f.body) if x.k == "asg" and x.a[0].k == "idx" and estr(x.a[0].a[0]) == b2]
-    R.check(len(rel) == 1 and estr(rel[0].a[1]) == "ipk" and any(estr(x) == "ipk = T[p2]" for st, x in cfront.all_exprs(f.body)), "C12.R4", CP, f.line, "bloboverlaps",
+    # the stored value is T[<the label that was in that cell>], whatever the temporaries are called (helpers are read in place and
+    # their locals renamed)
+    okrel = False
+    if len(rel) == 1:
+        asgs = [x for st, x in cfront.all_exprs(f.body) if x.k == "asg" and x.op == "=" and x.a[0].k == "var"]
+        val = rel[0].a[1]
+        while val.k == "cast":
+            val = val.a[0]
+        if val.k == "var":
+            vdef = sorted([x for x in asgs if x.a[0].name == val.name and (x.line or 0) <= (rel[0].line or 0)], key=lambda x: x.line or 0)
+            val = vdef[-1].a[1] if vdef else val        # the assignment just before the store (same block: ipk = T[p2]; if (ipk != p2) b2[..] = ipk)
+            while val.k == "cast":
+                val = val.a[0]
+        if val.k == "idx" and val.a[0].k == "var":
+            tname = val.a[0].name
+            ix = val.a[1]
+            while ix.k == "cast":
+                ix = ix.a[0]
+            from_b2 = ix.k == "idx" and estr(ix.a[0]) == b2
+            if ix.k == "var":
+                from_b2 = any(x.a[0].name == ix.name and any(y.k == "idx" and estr(y.a[0]) == b2 for y in ewalk(x.a[1])) for x in asgs)
+            # T is the table the compaction loop filled
+            okrel = from_b2 and any(x.k == "asg" and x.a[0].k == "idx" and estr(x.a[0].a[0]) == tname for st, x in cfront.all_exprs(f.body))
+    R.check(okrel, "C12.R4", CP, f.line, "bloboverlaps",
             "current-frame labels rewritten through T", "labels of the current frame are not updated after peaks were joined through the previous frame")
     rets = [n for n in cfg.nodes if n.k == "return" and n.id in cfg.reachable()]
     final = [n for n in rets if n.e is not None and estr(n.e) == "npk"]
